@@ -519,8 +519,9 @@ def wrap(
     kwargs.setdefault("break_on_hyphens", False)
     [first, *rest] = [
         line
-        for paragraph in text.splitlines()
-        for line in (textwrap.wrap(paragraph, width, **kwargs) if paragraph else [""])
+        # Empty text and blank (empty or whitespace-only) paragraphs yield an empty line
+        for paragraph in text.splitlines() or [""]
+        for line in textwrap.wrap(paragraph, width, **kwargs) or [""]
     ]
     # Manually take care of `initial_indent` and `subsequent_indent` since we don't
     # want them to count towards `width`
